@@ -91,6 +91,7 @@ var c11Scenarios = []string{"shared-pointers", "disjoint-pointers", "shared-uniq
 func init() {
 	fw.Register(&fw.Prop{
 		ID:         "C11",
+		CaseCPU:    3600,
 		Title:      "Matching individuals is a valid one-to-one matching on any schedule",
 		Race:       true,
 		NeedsCLI:   true,
@@ -469,12 +470,13 @@ func c11Run(c *fw.Ctx, i int) {
 		os.WriteFile(pfx+"-l.ged", []byte(lt), 0o644)
 		os.WriteFile(pfx+"-r.ged", []byte(rt), 0o644)
 		cj := []string{"1", "2", "4"}[(i/4)%3]
-		cmd := exec.Command(bin, "diff", "-left-gedcom", pfx+"-l.ged", "-right-gedcom", pfx+"-r.ged", "-output", pfx+".html", "-jobs", cj)
-		cmd.Env = append(os.Environ(), "GORACE=halt_on_error=0 exitcode=0 log_path="+pfx+".race")
+		outS, err, okRun := runCLI(c, "cli-diff", payload, append(os.Environ(), "GORACE=halt_on_error=0 exitcode=0 log_path="+pfx+".race"), 600, bin, "diff", "-left-gedcom", pfx+"-l.ged", "-right-gedcom", pfx+"-r.ged", "-output", pfx+".html", "-jobs", cj)
 		var buf bytes.Buffer
-		cmd.Stdout, cmd.Stderr = &buf, &buf
-		err := cmd.Run()
+		buf.WriteString(outS)
 		c.Count("cli-diff-runs", 1)
+		if !okRun {
+			return
+		}
 		if CrashedGo(buf.String(), err) {
 			c.Violation("cli-diff-crash", fmt.Sprintf("gedcom diff -jobs %s crashed:\n%s", cj, clip(buf.String(), 1500)), payload)
 		} else if err != nil {
